@@ -307,6 +307,9 @@ def expected(csv, ops, tf=None):
     out = None
     try:
         for o in ops:
+            if o[0] == "index_valid":
+                out = None
+                continue
             db, out = step(db, o)
     except Undefined:
         return None
